@@ -985,6 +985,19 @@ def part_bc(ck, im, rng, cases, n_progs, n_seqs):
         depth = rng.choice([1, 2, 2, 3])
         texts.append(gen.program(f'p{k}', depth, rng.choice([2, 3, 4])))
         names.append(f'p{k}')
+    # directed: several rounding blocks in ONE statement list, an earlier one replaced by several statements,
+    # untouched statements between and behind them (edit positions of a plural application)
+    texts.append('\n'.join([
+        '@fp.fpy(ctx=fp.REAL)',
+        'def pq(xs: list[fp.Real], x: fp.Real, y: fp.Real) -> fp.Real:',
+        '    a = 0.0', '    p = 0.0', '    q = 0.0', '    ys = [0.0, 0.0, 0.0]',
+        '    with fp.FP16:', '        p = fp.round(x)', '        q = fp.round(y)',
+        '    with fp.FP32:', '        q = fp.round(q)',
+        '    a = p + q',
+        '    with fp.FP16:', '        p = fp.round(a)', '        q = fp.round(p)',
+        '    a = a + q',
+        '    return a + p + q + ys[0]']) + '\n')
+    names.append('pq')
     n_round = max(3, n_progs // 3)
     rnames = [f'r{k}' for k in range(n_round)]
     texts += [gen.round_program(nm) for nm in rnames]
